@@ -4,7 +4,7 @@
      {"id": n, "cfg": {...}, "wire": [bytes], "ev": [{"a": act, "args": [...], "obs": {...}}, ...]}
    acts: "arrive" [n]  (the next n bytes of wire), "eof", "respond", "timeout", "shutdown".
    obs (server) = {msgs: [{sl, hs, body, end}], out: [codes], closed, logs, errors}
-   obs (client) = {st: "pending" | "ok" | "error", code, reason, hs, body, streamed, logs, errors}
+   obs (client) = {st: "pending" | "ok" | "error", code, hs, body, streamed, logs (not compared), errors}
    Every event must be explained by the spec action with the logged arguments and the logged
    observation must be one the specification allows (Bind); invariants are evaluated at every step. *)
 EXTENDS HttpReader, Json, IOUtils, TLCExt
@@ -67,7 +67,7 @@ ClientBind(s, o, final) ==
        \/ (res.st = "pending" /\ s.gz /\ Len(GzDec(cfg, s)) > s.maxb /\ o.st = "error")
     /\ (res.st = "ok" /\ o.st = "ok") => (o.code = res.code /\ SameFields(res.hs, o.hs) /\ o.body = res.body)
     /\ Len(o.streamed) <= cfg.maxBody
-    /\ o.logs = <<>> /\ o.errors = <<>>
+    /\ o.errors = <<>>                 \* (client-side log records are not part of C08)
 
 Bind == IF cfg.mode = "server" THEN ServerBind(r', Ev[l].obs) ELSE ClientBind(r', Ev[l].obs, Ev[l].a = "eof")
 
